@@ -4,7 +4,7 @@
    model theorems (proved in EFModel.C19_Return1D_proofs / EFModel.C19_Commit). *)
 From Coquelicot Require Import Coquelicot.
 From Coq Require Import Reals List Lra Bool.
-From EFModel Require Import C19_Return1D C19_Return1D_proofs C19_Commit C19_Lift C19_PlaneStress C19_Radial C19_Tangent C19_Units C19_KuhnTucker C19_Tangent2 C19_Unique.
+From EFModel Require Import C19_Return1D C19_Return1D_proofs C19_Commit C19_Lift C19_PlaneStress C19_Radial C19_Tangent C19_Units C19_KuhnTucker C19_Tangent2 C19_Unique C19_UniqueGen C19_Exist.
 From EFP Require Import Gen_C19.
 Import List ListNotations.
 Open Scope R_scope.
@@ -360,6 +360,52 @@ Theorem C19_two_solutions_close : forall lam sy dt p Rh ps,
     lam * Rabs (p_new Rops (mkPoint ps p) a - p_new Rops (mkPoint ps p) b) <= 2 * eps.
 Proof. intros; eapply two_solutions_close; eauto. Qed.
 Print Assumptions C19_two_solutions_close.
+
+(* ... and for EVERY eigen-structure (distinct eigenvalues: Hill, anisotropic elasticity): phi is
+   strictly decreasing, dGamma = theta*phi non-decreasing, the root is unique, and two approximate
+   solutions have equivalent stresses within 2 eps *)
+Theorem C19_root_unique_every_eigenstructure : forall sy dt p Rh ps,
+    lam_nonneg ps -> 0 < phi Rops ps 0 -> (forall x y, x <= y -> Rh x <= Rh y) ->
+    (forall a b, 0 <= a < b -> phi Rops ps b < phi Rops ps a) /\
+    (forall a b, 0 <= a <= b -> dGam Rops (mkPoint ps p) a <= dGam Rops (mkPoint ps p) b) /\
+    (forall a b, 0 <= a -> 0 <= b ->
+       resid Rops Rh None dt sy (mkPoint ps p) a = 0 -> resid Rops Rh None dt sy (mkPoint ps p) b = 0 -> a = b) /\
+    (forall a b eps, 0 <= a -> 0 <= b ->
+       Rabs (resid Rops Rh None dt sy (mkPoint ps p) a) <= eps ->
+       Rabs (resid Rops Rh None dt sy (mkPoint ps p) b) <= eps ->
+       Rabs (phi Rops ps a - phi Rops ps b) <= 2 * eps).
+Proof.
+  intros sy dt p Rh ps Hl Hp Hm. split; [|split; [|split]].
+  - apply phi_strictly_decreasing; assumption.
+  - apply dGam_nondecreasing; assumption.
+  - apply root_unique_gen; assumption.
+  - apply two_solutions_close_gen; assumption.
+Qed.
+Print Assumptions C19_root_unique_every_eigenstructure.
+
+(* EXISTENCE and uniqueness, every eigen-structure: continuous non-decreasing hardening, positive
+   current yield stress, trial state outside the surface *)
+Theorem C19_root_exists_unique : forall sy dt p Rh ps,
+    lam_nonneg ps -> 0 < phi Rops ps 0 -> (forall x y, x <= y -> Rh x <= Rh y) ->
+    (forall x, continuous Rh x) -> 0 < sy + Rh p -> 0 < phi Rops ps 0 - sy - Rh p ->
+    exists th, 0 <= th /\ resid Rops Rh None dt sy (mkPoint ps p) th = 0 /\
+               forall th', 0 <= th' -> resid Rops Rh None dt sy (mkPoint ps p) th' = 0 -> th' = th.
+Proof. intros; apply root_exists_unique; assumption. Qed.
+Print Assumptions C19_root_exists_unique.
+
+(* ... for the source's Voce law (and likewise Linear) under the constructor's assertions *)
+Theorem C19_voce_root_exists_unique : forall Q b sy dt p ps, 0 <= Q -> 0 < b ->
+    lam_nonneg ps -> 0 < phi Rops ps 0 -> 0 < sy + gen_voce_R Q b p -> 0 < phi Rops ps 0 - sy - gen_voce_R Q b p ->
+    exists th, 0 <= th /\ resid Rops (gen_voce_R Q b) None dt sy (mkPoint ps p) th = 0 /\
+               forall th', 0 <= th' -> resid Rops (gen_voce_R Q b) None dt sy (mkPoint ps p) th' = 0 -> th' = th.
+Proof.
+  intros Q b sy dt p ps HQ Hb Hl Hp HK HA.
+  destruct (gen_voce_hardening Q b HQ Hb) as [Hm [_ [_ Hd]]].
+  apply root_exists_unique; try assumption.
+  intro x. apply (ex_derive_continuous (K := R_AbsRing) (V := R_NormedModule)).
+  exists (gen_voce_dR Q b x). apply Hd.
+Qed.
+Print Assumptions C19_voce_root_exists_unique.
 
 (* in particular for the Voce law as the source defines it *)
 Theorem C19_voce_root_unique : forall Q b lam sy dt p ps, 0 <= Q -> 0 < b ->
